@@ -250,6 +250,36 @@ SpaceX ==
                  gs : {"none"}, scl : {"s0"}, when : {"before"}] :
               (s.meth = "DC" <=> s.intg = "radau2")}
 
+(***************************************************************************)
+(* C08 family: refined sampling and samplers at dynamically feasible       *)
+(* points (the probe's node states are the propagated ones).               *)
+(***************************************************************************)
+FeasibleProbe(d, s) ==
+  LET p0 == MkProbe(d, s)
+      dSS == [d EXCEPT !.method.kind = "SS"]
+      W == World(dSS, p0)
+  IN IF d.method.kind = "DC" THEN p0 ELSE [p0 EXCEPT !.X = W.X]
+QueryTimes(N, M) == Tup([i \in 1..N * M |-> <<i, Q(1, 3)>>]) \o <<<<1, Zero>>, <<N * M, One>>, <<N * M, Q(1, 2)>>>>
+                    \o (IF N * M > 1 THEN <<<<2, Zero>>, <<1, Q(3, 4)>>>> ELSE <<>>)
+MkDeclR(s) ==
+  LET N == s.N
+      d0 == Rhs(s.rhs, N)
+      dcs == SchemeOf(IF s.meth = "DC" THEN s.intg ELSE "radau2")
+      ex == IF Len(d0.states) > 1 THEN Plus(Times(X(1), X(2)), Times(U(1), Tm)) ELSE Plus(Sq(X(1)), Times(U(1), Tm))
+      d1 == [d0 EXCEPT !.method = IF s.meth = "DC" THEN MethodDC(N, s.M, dcs[1], dcs[2], GridOf(s.grid, N))
+                                  ELSE Method(s.meth, N, s.M, s.intg, GridOf(s.grid, N)),
+                       !.obj = <<O1, O3>>,    \* makes every decision variable an active NLP variable (sampler works on the gist)
+                       !.reads = <<RRead("C08.c", X(1), s.refine), RRead("C08.c", ex, s.refine), RRead("C08.c", Tm, s.refine),
+                                   Read("C08.a", "sample", X(1), "integrator"), Read("C08.a", "sample", X(1), "control"),
+                                   SRead("C08.i", X(1), QueryTimes(N, s.M)), SRead("C08.i", Plus(Sq(X(1)), Times(U(1), Tm)), QueryTimes(N, s.M))>>]
+  IN WithHorizon(d1, s.hz, IF s.seed % 2 = 0 THEN One ELSE Q(-1, 2), TBase(s.grid, N))
+SpaceR == {s \in [rhs : {"R1", "R2", "R3", "R5"}, meth : {"MS", "SS", "DC"}, intg : {"rk", "expl_euler", "radau1", "radau2", "legendre1"},
+                  N : 1..(IF Thorough THEN 3 ELSE 2), M : 1..2, grid : {"uni", "geo", "fun"}, hz : {"num", "fT"}, refine : 1..(IF Thorough THEN 7 ELSE 4),
+                  seed : {Seed}, cons : {<<>>}, obj : {<<>>}] :
+              /\ (s.meth = "DC" <=> s.intg \in {"radau1", "radau2", "legendre1"})
+              /\ (s.rhs = "R5" => s.N * s.M <= 2 \/ s.intg = "expl_euler")
+              /\ (s.rhs = "R3" => s.meth # "DC" \/ TRUE)}
+
 IsX == Family \in {"C09", "C10", "C11", "C14"}
 MaxN == IF Thorough THEN 4 ELSE 3
 MaxM == IF Thorough THEN 3 ELSE 2
@@ -296,12 +326,12 @@ Code(s) == s.N + 3 * s.M + s.seed + Len(s.cons) + Len(s.obj)
            + (CASE s.grid = "uni" -> 0 [] s.grid = "geo" -> 1 [] s.grid = "geoL" -> 2 [] s.grid = "fun" -> 3 [] OTHER -> 4)
            + (CASE s.meth = "MS" -> 0 [] OTHER -> 5)
 
-Init == sc \in {s \in (CASE Family = "C06" -> SpaceG [] Family = "C07" -> SpaceS [] IsX -> SpaceX [] OTHER -> Space) : Code(s) % Parts = Part}
+Init == sc \in {s \in (CASE Family = "C06" -> SpaceG [] Family = "C07" -> SpaceS [] IsX -> SpaceX [] Family = "C08" -> SpaceR [] OTHER -> Space) : Code(s) % Parts = Part}
 Next == UNCHANGED sc
 
-DeclOf(s) == CASE Family = "C06" -> MkDeclG(s) [] Family = "C07" -> MkDeclS(s) [] IsX -> MkDeclX(s) [] OTHER -> MkDecl(s)
+DeclOf(s) == CASE Family = "C06" -> MkDeclG(s) [] Family = "C07" -> MkDeclS(s) [] IsX -> MkDeclX(s) [] Family = "C08" -> MkDeclR(s) [] OTHER -> MkDecl(s)
 Emit == LET d == DeclOf(sc)
-            pr == IF Family = "C06" THEN MkProbeG(d, sc) ELSE IF IsX THEN MkProbeX(d, sc) ELSE MkProbe(d, sc.seed)
+            pr == IF Family = "C06" THEN MkProbeG(d, sc) ELSE IF IsX THEN MkProbeX(d, sc) ELSE IF Family = "C08" THEN FeasibleProbe(d, sc.seed) ELSE MkProbe(d, sc.seed)
             pr2 == [MkProbe(d, sc.seed + 4) EXCEPT !.gv = pr.gv]
         IN TLCSet(1, Append(TLCGet(1), [fam |-> Family, sc |-> sc, decl |-> d, probe |-> pr, pred |-> Predict(d, pr, pr2)]))
 
